@@ -408,6 +408,9 @@ def math_environments():
 FORMULA_SHAPES = [('plain', '%(b)s%(a)s x &= MTHQ y \\\\ z %(e)s'),
                   ('comment', '%(b)s%(a)s x MTHQ %%CMTQ\n y%(e)s'),
                   ('multi-line', '%(b)s%(a)s\n x MTHQ\n\n y\n%(e)s'),
+                  # carriage returns: CRLF line ends inside a formula, a bare CR inside a comment
+                  ('crlf', '%(b)s%(a)s\r\n x MTHQ\r\n y\r\n%(e)s'),
+                  ('comment-cr', '%(b)s%(a)s x MTHQ %%c \r CMTQ\n y%(e)s'),
                   ('in-group', '{\\textbf{%(b)s%(a)s MTHQ%(e)s}}'),
                   ('nested', '\\begin{equation}%(b)s%(a)s MTHQ %(e)s\\end{equation}'),
                   ('in-item', '\\begin{itemize}\\item %(b)s%(a)s MTHQ%(e)s\\end{itemize}')]
@@ -495,7 +498,7 @@ def run_mathenvs(k, tier, res):
                 continue        # a blank line ends inline math in LaTeX
             src = tpl % {'b': b, 'a': a, 'e': e}
             inner = (FORMULA_SHAPES[0][1] if shape in ('in-group', 'nested', 'in-item') else tpl)
-            fsrc = src if shape in ('plain', 'comment', 'multi-line') else \
+            fsrc = src if shape in ('plain', 'comment', 'multi-line', 'crlf', 'comment-cr') else \
                 (b + a + ' MTHQ ' + e if shape == 'nested' else b + a + ' MTHQ' + e)
             if shape == 'nested':
                 fsrc = src
